@@ -138,6 +138,20 @@ def run_mir_opt(res, tier, sc, drv, only_prog=None, only_fn=None):
             jobs.append((name, os.path.join(od, "mir_unopt.json"), os.path.join(od, "mir_opt_%s.json" % c), mode, bounds, only_fn))
             if name != "repo-tests" and (c == "11111" or tier != "quick"):
                 jobs.append((name, os.path.join(od, "mir_unopt.json"), os.path.join(od, "mir_opt_%s.json" % c), mode + "+divtraps", bounds, only_fn))
+    # programs behind listed known findings: every difference found in them is attributed to that finding
+    from vlib.common import load_known as _lk
+    known_progs = {}
+    for k_ in _lk("C02"):
+        if k_.get("program") and not only_prog:
+            path = os.path.join(VERIF, k_["program"])
+            kname = "known_" + os.path.splitext(os.path.basename(path))[0]
+            od = os.path.join(outroot, kname)
+            p = drv.call(["dump", od, "11111,00100"] + ["%s=%s" % (os.path.splitext(os.path.basename(path))[0], path)], check=False, timeout=600)
+            if '"status":"ok"' in p.stdout:
+                known_progs[kname] = k_
+                for c in ("11111", "00100"):
+                    jobs.append((kname, os.path.join(od, "mir_unopt.json"), os.path.join(od, "mir_opt_%s.json" % c), "enter", bounds, None))
+    known_hits = {}
     stats = {"functions_compared": 0, "equal": 0, "different": 0, "skipped": 0, "inconclusive": 0, "error": 0, "pairs": 0, "queries": 0,
              "bound_ref_paths": 0, "bound_new_paths": 0, "fully_covered_functions": 0}
     skipped_why = {}
@@ -147,6 +161,11 @@ def run_mir_opt(res, tier, sc, drv, only_prog=None, only_fn=None):
     t0 = time.time()
     with concurrent.futures.ProcessPoolExecutor(max_workers=min(14, max(1, len(jobs)))) as ex:
         for (prog, fa, fb, mode, out, dropped) in ex.map(_compare_one, jobs):
+            if prog in known_progs:
+                diff = sorted(r["fn"].split("$")[-1] for r in out if r["status"] == "different")
+                if diff:
+                    known_hits.setdefault(known_progs[prog]["id"], set()).update(diff)
+                continue
             for r in out:
                 if r.get("divtraps"):
                     stats["division_trap_pass_functions"] = stats.get("division_trap_pass_functions", 0) + 1
@@ -180,6 +199,10 @@ def run_mir_opt(res, tier, sc, drv, only_prog=None, only_fn=None):
                     res.inconc("%s/%s (%s): %s" % (prog, r["fn"], fb, r.get("why")))
                 if stats["functions_compared"] % 97 == 0:
                     res.sample({"program": prog, "function": r["fn"], "after": fb, "status": r["status"], "paths_ref": r.get("paths_ref"), "pairs": r.get("pairs")})
+    for kid, fns_ in sorted(known_hits.items()):
+        k_ = [x for x in known_progs.values() if x["id"] == kid][0]
+        res.known("%s %s (differs in: %s)" % (kid, k_["short"], ", ".join(sorted(fns_))))
+    stats["known_finding_programs"] = {k: sorted(v) for k, v in known_hits.items()}
     if f29_sites:
         res.known("%s %s (%d sites in the corpus, e.g. %s)" % (f29[0]["id"], f29[0]["short"], len(set(f29_sites)), ", ".join(sorted(set(f29_sites))[:4])))
         stats["division_trap_known_sites"] = sorted(set(f29_sites))
@@ -425,6 +448,88 @@ def run_trap_freedom(res, tier, sc, drv):
     for kid, short in sorted(known_hits):
         res.known("%s %s" % (kid, short))
     return {"trap_freedom": rows}
+
+
+def _compare_lirts(job):
+    """the LIR the compiler produced vs the TypeScript it printed from it (read back by vlib/tsir.py)"""
+    from vlib import tsir
+    prog, lir_path, ts_path, bounds = job
+    js = json.load(open(lir_path))
+    L = irsym.Prog(js)
+    # the MIR type table of the same configuration says which variants of an enum are unboxed (the LIR table does not)
+    mir_path = os.path.join(os.path.dirname(lir_path), "mir_opt_00000.json" if "00000" in os.path.basename(lir_path) else "mir_opt_11111.json")
+    wf = {t["name"]: t for t in json.load(open(mir_path))["types"]} if os.path.exists(mir_path) else None
+    M = tsir.Module(open(ts_path).read())
+    out = []
+    fns = []
+    skipped = {}
+    for n in L.fns:
+        if n not in M.fn_lines:
+            out.append({"fn": n, "status": "different", "why": "the function is missing from the TypeScript output"})
+            continue
+        try:
+            fns.append(M.function(n))
+        except irsym.Unsupported as e:
+            skipped[n] = str(e)
+    T = irsym.Prog({"ir": "lir", "globals": js["globals"], "types": js["types"], "mains": js["mains"], "functions": fns})
+    for n in L.fns:
+        if n in skipped:
+            out.append({"fn": n, "status": "skipped", "why": "TypeScript not read back: %s" % skipped[n]})
+            continue
+        if n not in T.fns:
+            continue
+        t0 = time.time()
+        try:
+            r = irsym.compare_function(n, L, T, bounds, enter=False, typed=True, js=True, wf_types=wf)
+        except irsym.Unsupported as e:
+            r = {"status": "skipped", "why": str(e)}
+        except irsym.Budget as e:
+            r = {"status": "skipped", "why": "budget: %s" % e}
+        except Exception as e:  # noqa
+            import traceback
+            r = {"status": "error", "why": "%r %s" % (e, traceback.format_exc()[-600:])}
+        r["fn"] = n
+        r["wall_s"] = round(time.time() - t0, 2)
+        out.append(r)
+    return (prog, os.path.basename(lir_path), os.path.basename(ts_path), out)
+
+
+def run_lirts(res, tier, sc, drv):
+    """C04, TypeScript side: the TypeScript back end is a printer of LIR; what it printed is parsed back and proved
+    equivalent to the LIR function by function (JavaScript statement semantics: sequential assignments, while (true) /
+    break, erased casts), so that a printer that drops, reorders or mistranslates a statement is seen."""
+    outroot = os.path.join(sc.root, "et")
+    fb = QUICK_BOUNDS if tier == "quick" else THOROUGH_BOUNDS
+    jobs = []
+    for name, mods in corpus(sc, tier):
+        if tier == "quick" and name == "repo-tests":
+            continue
+        od = os.path.join(outroot, name)
+        if not os.path.exists(os.path.join(od, "all_00000.ts")):
+            p = drv.call(["dump", od, "11111,00000"] + mods, check=False, timeout=600)
+            if '"status":"ok"' not in p.stdout:
+                raise Inconclusive("corpus program %s is not accepted: %s" % (name, p.stdout[:300]))
+        jobs.append((name, os.path.join(od, "lir.json"), os.path.join(od, "all.ts"), fb))
+        jobs.append((name, os.path.join(od, "lir_00000.json"), os.path.join(od, "all_00000.ts"), fb))
+    stats = {"functions_compared": 0, "equal": 0, "different": 0, "skipped": 0, "pairs": 0, "skipped_reasons": {}}
+    with concurrent.futures.ProcessPoolExecutor(max_workers=min(14, max(1, len(jobs)))) as ex:
+        for (prog, fa, fb_, out) in ex.map(_compare_lirts, jobs):
+            for r in out:
+                stats["functions_compared"] += 1
+                stats[r["status"]] = stats.get(r["status"], 0) + 1
+                stats["pairs"] += r.get("pairs", 0)
+                if r["status"] == "different":
+                    res.violation("%s: %s: the TypeScript printed for it (%s) does not behave like the LIR it was printed from (%s): %s"
+                                  % (prog, r["fn"], fb_, fa, r.get("why")),
+                                  {"program": prog, "function": r["fn"], "lir": fa, "ts": fb_, **{k: v for k, v in r.items() if k != "fn"}})
+                elif r["status"] == "skipped":
+                    k = str(r.get("why"))[:70]
+                    stats["skipped_reasons"][k] = stats["skipped_reasons"].get(k, 0) + 1
+                elif r["status"] in ("error", "inconclusive"):
+                    res.inconc("%s/%s (TypeScript): %s" % (prog, r["fn"], str(r.get("why"))[-300:]))
+    if stats["functions_compared"] and stats["equal"] * 2 < stats["functions_compared"]:
+        res.inconc("TypeScript read-back: fewer than half of the functions could be compared (%s)" % json.dumps(stats["skipped_reasons"])[:400])
+    return {"typescript_functions": stats}
 
 
 def run_lirwat(res, tier, sc, drv):
